@@ -756,7 +756,7 @@ func TestVerifC08(t *testing.T) {
 		scReplay(t, rep, rp, tmp)
 		return
 	}
-	deadline := rep.Deadline(85*time.Second, 18*time.Minute)
+	deadline := rep.Deadline(200*time.Second, 25*time.Minute)
 	bounds := []int{0, 1, 2}
 	if rep.Tier == "thorough" {
 		bounds = []int{0, 1, 2, 3}
